@@ -27,6 +27,7 @@ def pdfua(pdf, metadata, document, page_streams, attachments, compress):
     document_children = []
     content_mapping['Nums'] = pydyf.Array()
     links = []
+    page_number = -1
     for page_number, page_stream in enumerate(page_streams):
         structure = {}
         document.build_element_structure(structure)
